@@ -31,8 +31,22 @@ INFO = {
 CMAX = 4
 
 
+def _module_constants():
+    """simple module-level constants of core_ranking.py (read from the source), so that the extracted function can refer to them"""
+    import ast
+    out = {}
+    for n in ast.parse(open(loader.repo_path('outrank/core_ranking.py')).read()).body:
+        tg = n.targets[0] if isinstance(n, ast.Assign) else (n.target if isinstance(n, ast.AnnAssign) else None)
+        if isinstance(tg, ast.Name) and getattr(n, 'value', None) is not None:
+            try:
+                out[tg.id] = eval(compile(ast.Expression(n.value), '<const>', 'eval'), {})
+            except Exception:
+                pass
+    return {k: v for k, v in out.items() if isinstance(v, (int, float, str, bool))}
+
+
 def load_fn():
-    ns = loader.load('outrank/core_ranking.py', only=['prior_combinations_sample', 'GLOBAL_PRIOR_COMB_COUNTS'], extra={'Counter': Counter, 'Any': Any, 'np': xnp, 'itertools': __import__('itertools'), 'random': __import__('random')})
+    ns = loader.load('outrank/core_ranking.py', only=['prior_combinations_sample', 'GLOBAL_PRIOR_COMB_COUNTS'], extra=_module_constants() | {'Counter': Counter, 'Any': Any, 'np': xnp, 'itertools': __import__('itertools'), 'random': __import__('random')})
     return ns
 
 
